@@ -9,6 +9,7 @@
                clone / clone_deeper / clone_deeper(from,to) / subst / equal / get_size answered by the real
                expression_t API (harness/c19.cpp) and by the Lean model (drv_c19); canonical results diffed     (tie C)
  4 search      direct oracle in the harness: every law on every tree, all its symbols, all single-node perturbations;
+               call sequences on one tree: print, replace an operand through operator[], print again (the text follows the tree);
                a child beyond get_size() is probed in a forked process (one read past the reported end)
 """
 import json
